@@ -28,9 +28,9 @@ type laneBReplay struct {
 	// state such as pools and caches carries over); Tasks: the call set that was running.
 	History [][]C19Task `json:"earlier_call_sets_in_the_same_process,omitempty"`
 	Tasks   []C19Task   `json:"tasks"`
-	Clause string    `json:"clause"`
-	Seed   uint64    `json:"seed"`
-	Case   int64     `json:"case"`
+	Clause  string      `json:"clause"`
+	Seed    uint64      `json:"seed"`
+	Case    int64       `json:"case"`
 }
 
 func canonResult(spec *OpSpec, r *Result) string {
